@@ -233,6 +233,7 @@ def m_enforce_eq(I, st, fr, callee, args, dty, dest, ret_bb):
 def m_digest_deref(I, st, fr, callee, args, dty, dest, ret_bb): return args[0]
 
 def install_world(I):
+    import fsx
     models.install(I); install_streams(I)
     I.models[:0] = [
         (R(r'verify::<impl Root>::verify_role::<'), m_verify_oracle),
@@ -254,6 +255,7 @@ def install_world(I):
         (R(r'^<ExpirationEnforcement as PartialEq>::eq$'), m_enforce_eq),
         (R(r'^<Decoded<Hex> as Deref>::deref$'), m_digest_deref),
     ]
+    fsx.install_fsx(I)
 
 # ------------------------------------------------------------------------------------------------ running an async fn
 def find_fn(I, fn_name):
@@ -317,6 +319,7 @@ def run_fn(I, st, fn_name, kwargs, generics=None):
 def classify(res):
     """Poll::Ready(Result<..>) -> ('Ok', payload) | ('Err:Kind/Inner', error obj) | ('panic', msg)"""
     if isinstance(res, Obj) and res.kind == 'panic': return 'panic', res.d.get('msg')
+    if isinstance(res, Obj) and res.kind == 'crash': return 'crash', None
     r = res
     if isinstance(res, Adt) and ('Ready', 0) in res.fields: r = res.fields[('Ready', 0)]
     if r.discr == 0: return 'Ok', r.fields.get(('Ok', 0))
